@@ -74,6 +74,7 @@ func init() {
 			}
 			add(qast.TreeUnits("tree|full|1|df", len(treeSet("full0")), 1), 1)
 			add(qast.TreeUnits("tree|c11x|1|df", len(treeSet("c11x0")), 1), 1)
+			add([]string{"groups"}, 2)
 			if tier == "thorough" {
 				add(qast.TreeUnits("tree|full|2|df", len(treeSet("full1")), 60), 4)
 			} else {
@@ -82,6 +83,22 @@ func init() {
 			return us
 		},
 		Run: func(w *core.Worker, tier, unit string) {
+			if unit == "groups" {
+				// a field's value group holding bare and explicitly fielded terms side by side:
+				// f:(T), T in TREE({x, y, b:c}, 2) over NOT + - AND OR; alone, negated, in a conjunction
+				T := func(v string) *qast.Node { return qast.Lf(qast.Leaf{Kind: qast.LTerm, Val: qast.W(v)}) }
+				leaves := []*qast.Node{T("x"), T("y"), qast.Lf(qast.Leaf{Kind: qast.LEq, Field: "b", Val: qast.W("c")})}
+				for _, sub := range qast.AllTreesU(leaves, []qast.UForm{{Op: qast.ONot}, {Op: qast.OMust}, {Op: qast.OMustN}}, 2) {
+					g := qast.Lf(qast.Leaf{Kind: qast.LGroup, Field: "f", Sub: sub})
+					for _, t := range []*qast.Node{g, qast.Un(qast.ONot, g), qast.Bin(qast.OAnd, g, T("z")), qast.Bin(qast.OOr, T("z"), g)} {
+						txt := qast.Text(t, nil)
+						for _, f := range c11Fields {
+							w.Do(core.Case{Kind: "q", In: core.BStr(txt), DF: core.BStr(f)})
+						}
+					}
+				}
+				return
+			}
 			if strings.HasPrefix(unit, "tree|") {
 				leaves, sub := treeUnitSets(unit)
 				_, eu := stripTreeUnit(unit)
@@ -99,7 +116,7 @@ func init() {
 		},
 		Eval:   c11Eval,
 		Shrink: shrinkTokensKeepDF,
-		Rule: "TOK(Σ_full,N) ∪ TOK(Σ_unary,k) ∪ TOK(Σ_bool,k) with default field D, and TREE texts with each of four default-field names (plain, with a space, with a double quote, 70 bytes); " +
+		Rule: "TOK(Σ_full,N) ∪ TOK(Σ_unary,k) ∪ TOK(Σ_bool,k) with default field D, TREE texts and every value group f:(T), T in TREE({x,y,b:c},2), with each of four default-field names (plain, with a space, with a double quote, 70 bytes); " +
 			"each parsed with and without the option; non-trivial = accepted with the option; distinct = distinct trees with the option",
 		Assumptions: []string{"the default-field name never occurs in the query (the statement's precondition)"},
 		Bounds: func(tier string) map[string]any {
